@@ -302,7 +302,14 @@ class EdSim(core.Engine):
                 _REAL['makedirs'](os.path.dirname(p), exist_ok=True)
                 with _REAL['open'](p, 'wb') as fh:
                     fh.write(text.replace('{ROOT}', root).encode('utf-8'))
-            V = self._run_world(trace, root, stats, log, res)
+            ed = editor_lib.Editor(parser())
+            V = self._run_world(trace, root, stats, log, res, ed, trace['ops'])
+            if not V and not res.skipped and trace.get('followup') is not None:
+                # a second session through the SAME Editor object on whatever the first one left behind
+                stats['followup_sessions'] += 1
+                os.chdir(root)
+                V = self._run_world(trace, root, stats, log, res, ed, trace['followup'])
+                V = [Violation(v.prop, v.clause, 1, 'second session with the same Editor: ' + v.msg) for v in V]
             res.violations = V
         finally:
             os.chdir(cwd0)
@@ -334,7 +341,7 @@ class EdSim(core.Engine):
                 queue.extend(sorted(ms))
         return seen, None
 
-    def _run_world(self, trace: dict, root: str, stats, log, res: core.RunResult) -> list[Violation]:
+    def _run_world(self, trace: dict, root: str, stats, log, res: core.RunResult, ed: Any, ops: list) -> list[Violation]:
         entry = trace['entry']
         before, dirs_before = self._scan(root)
         entry_abs = os.path.join(root, entry['file'])
@@ -372,9 +379,7 @@ class EdSim(core.Engine):
         stats[f'api:{entry["api"]}'] += 1
         if any(b'\r\n' in b for p, b in before.items() if closure and p in closure):
             stats['closure_has_crlf'] += 1
-        ops = trace['ops']
         raise_at = next((i for i, o in enumerate(ops) if o['op'] == 'raise'), None)
-        ed = editor_lib.Editor(parser())
         body_state: dict = {'keys': None, 'ran': 0, 'added': {}, 'popped': [], 'edited': set()}
         exc: Optional[BaseException] = None
         ipo = Interposer(trace['glob_seed'])
@@ -632,6 +637,9 @@ class EdSim(core.Engine):
         for k in range(len(ops) + 1):
             t = copy.deepcopy(trace)
             t['ops'] = ops[:k] + [{'op': 'raise'}] + ops[k:]
+            if (run + k) % 2 == 0:
+                # afterwards the same Editor is used again: nothing of the aborted session may reach the disk
+                t['followup'] = [] if k % 2 == 0 else [{'op': 'read', 'k': k}, {'op': 'edit', 'k': k + 1, 'how': 'noop_roundtrip'}]
             r = self._execute(t, prop)
             total.stats.update(r.stats)
             total.log.extend(r.log)
